@@ -81,6 +81,10 @@ def proof_verdict(res, pid, coq, n_failing):
 
 def run(tier, seed, replay=None):
     res = core.Result(PID, tier, seed, level="proof")
+    if not replay:
+        from . import receivers
+        res.coverage["receiver_probe_operations"] = len(receivers.C01_OPS)
+        res.coverage["receiver_probe_failing"] = [op for op, _ in receivers.report(res, PID, receivers.C01_OPS, "const arrays, const-qualified and temporary views")]
     prep = prepare(res, PID)
     if prep is None:
         return res.finish()
